@@ -135,23 +135,28 @@ theorem C24_alloc_addr (p : Bytes) (hl : p.length < 2 ^ 63) (m : Msg) (st : St)
   simp [St.init]
   omega
 
-/-- **No count-sized `make` in the package** (generated from the Go sources on every run): the only `make` calls of
-`p2pserver/message/types` (non-test) are the reviewed ones below — none inside a decoder, none sized by a decoded count
-(`ReadMessage` sizes its buffer by `hdr.Length` only after the `MAX_PAYLOAD_LEN` check, mirrored as `ReadOk.alloc`) — and
-the loops bounded by a decoded count are exactly the ones the model mirrors with `repeatD`. -/
+/-- **No count-sized `make`, every header-sized `make` checked** (facts regenerated from the Go sources on every run,
+located by role from the entry points `ReadMessage` / `*.Deserialization` through same-package helpers, variables renamed
+by role: `$c` a value read from the source, `$v` another local, `$src` the source; "checked" = conditions that leave before
+the site is reached, a merged `a || b` exit counting as both):
+* the only allocations are the constant header buffer and the payload buffer `make([]byte, hdr.Length)`, the latter
+  dominated by the magic test and by `hdr.Length > MAX_PAYLOAD_LEN` (mirrored as `ReadOk.alloc`, `C24_header_checks`);
+* no `make` is sized by a decoded count (the model would have to mirror it as `allocEv count`, for which `C24_alloc` has no rule);
+* the loops bounded by a decoded count are exactly the ones the model mirrors with `repeatD` (plus the two of the
+  un-modelled `offline` decoder), with the readers the counts come from and the one count check there is (`Addr`). -/
 theorem C24_make_sites :
     OntVerif.Gen.P2PAlloc.makeSites =
-      ["message.go:readMessageHeader#0: make([]byte, comm.UINT32_SIZE+common.MSG_CMD_LEN+comm.UINT…",
-       "message.go:ReadMessage#0: make([]byte, hdr.Length)"] ∧
+      ["ReadMessage: make([]byte,const)",
+       "ReadMessage: make([]byte,$v.Length) checked $v.Magic!=config.DefConfig.P2PNode.NetworkMagic ; $v.Length>common.MAX_PAYLOAD_LEN"] ∧
     OntVerif.Gen.P2PAlloc.countSizedMakes = [] ∧
     OntVerif.Gen.P2PAlloc.countLoops =
-      ["address.go:Addr.Deserialization#0: for i < int(count)",           -- decAddr
-       "block_header.go:BlkHeader.Deserialization#0: for i < int(count)",  -- decHeaders
-       "find_node.go:FindNodeResp.Deserialization#0: for i < int(numCloser)",  -- decFindNodeResp
-       "inventory.go:Inv.Deserialization#0: for i < int(blkCnt)",          -- decInv
-       "offline_witness.go:OfflineWitnessMsg.Deserialization#0: for i < lenPubKeys",  -- not modelled (≤ 255 by an explicit check)
-       "offline_witness.go:OfflineWitnessMsg.Deserialization#1: for i < lenVoters",   -- not modelled (`offline` is explored only)
-       "subnet.go:SubnetMembers.Deserialization#0: for i < num"] :=         -- decMembers
+      ["Addr.Deserialization: for <int($c) $c=NextUint64 checked $c>$src.Len()",     -- decAddr
+       "BlkHeader.Deserialization: for <int($c) $c=NextUint32 unchecked",             -- decHeaders
+       "FindNodeResp.Deserialization: for <int($c) $c=NextUint32 unchecked",          -- decFindNodeResp
+       "Inv.Deserialization: for <int($c) $c=NextUint32 unchecked",                   -- decInv
+       "OfflineWitnessMsg.Deserialization: for <$c $c=ReadUint32 checked $c>math.MaxUint8",  -- not modelled
+       "OfflineWitnessMsg.Deserialization: for <$c $c=ReadUint32 unchecked",          -- not modelled (`offline` is explored only)
+       "SubnetMembers.Deserialization: for <$c $c=ReadUint32 unchecked"] :=            -- decMembers
   ⟨rfl, rfl, rfl⟩
 
 /-! ### Non-vacuity -/
